@@ -97,6 +97,7 @@ def inproc(case, base):
         out['orig'] = AC.conv_module(ast.parse(text), it)
         try:
             out['S'] = ProfmodExtractor._get_modnames_to_profile_from_prof_mod(script_file, prof_mod)
+            out['S_elsewhere'] = selection_elsewhere(ProfmodExtractor, script_file, prof_mod, base)
             out['full'] = bool(Profiler._check_profile_full_script(script_file, prof_mod))
             pre = Profiler._get_script_ast_tree(script_file)
             out['pre'] = AC.conv_module(pre, it)
@@ -125,6 +126,50 @@ def inproc(case, base):
         os.chdir(old_cwd)
         sys.path[:] = old_path
     return out
+
+
+def selection_elsewhere(PE, script_file, prof_mod, base):
+    """The same selection resolved with kernprof started from ANOTHER directory, which holds an unrelated plain
+    directory named like every selected top-level module.  Only when every selection is an absolute path or a bare
+    top-level name that the import system finds as a source module of the layout (then the answer may not depend on
+    the start directory); None otherwise."""
+    import importlib.machinery
+    import shutil
+    import tempfile
+    sd = os.path.realpath(os.path.dirname(script_file))
+    rbase = os.path.realpath(base)
+    bare = []
+    for m in prof_mod:
+        if os.path.isabs(m):
+            continue
+        if not m.isidentifier():
+            return None
+        try:
+            spec = importlib.machinery.PathFinder.find_spec(m, [sd] + sys.path)
+        except Exception:  # noqa
+            return None
+        if spec is None or not spec.origin or not spec.origin.endswith('.py') \
+                or not os.path.realpath(spec.origin).startswith(rbase + os.sep):
+            return None
+        bare.append(m)
+    if not bare:
+        return None
+    script_abs = os.path.abspath(script_file)
+    d = tempfile.mkdtemp(prefix='elsewhere-', dir=os.path.dirname(rbase))
+    here = os.getcwd()
+    try:
+        for m in bare:
+            os.makedirs(os.path.join(d, m), exist_ok=True)
+            with open(os.path.join(d, m, 'notes.txt'), 'w') as f:
+                f.write('unrelated\n')
+        os.chdir(d)
+        try:
+            return list(PE._get_modnames_to_profile_from_prof_mod(script_abs, list(prof_mod)))
+        except Exception as e:  # noqa
+            return ['<raised %s>' % type(e).__name__]
+    finally:
+        os.chdir(here)
+        shutil.rmtree(d, ignore_errors=True)
 
 
 def e2e(case, base):
